@@ -228,9 +228,12 @@ EvIf(node, i, e, st) ==
        ELSE EvIf(node, i + 1, e, c.st)
 
 \* NodeFor: the loop variable(s) are bound in the *current* frame
+\* (bindLoopVariables: a destructuring loop needs list or set elements; names
+\* without a counterpart are bound to NULL)
+Nth(s, i) == IF i <= Len(s) THEN s[i] ELSE Null
 BindLoopVars(st, e, ids, v) ==
   IF Len(ids) = 1 THEN Put(st, e, ids[1], v)
-  ELSE Put(Put(st, e, ids[1], v.s[1]), e, ids[2], v.s[2])
+  ELSE Put(Put(st, e, ids[1], Nth(v.s, 1)), e, ids[2], Nth(v.s, 2))
 UnbindLoopVars(st, e, ids) ==
   IF Len(ids) = 1 THEN Remove(st, e, ids[1]) ELSE Remove(Remove(st, e, ids[1]), e, ids[2])
 
@@ -242,7 +245,7 @@ EvLoop(node, items, i, e, st, last) ==
   IN
   IF i > Len(items) THEN done(last, st)
   ELSE IF st.fuel = 0 THEN R(O("fuel", Null), st)
-  ELSE IF Len(ids) = 2 /\ ~(items[i].k \in {"list", "set"} /\ Len(items[i].s) >= 2)
+  ELSE IF Len(ids) = 2 /\ items[i].k \notin {"list", "set"}
   THEN R(RErr, st)                                  \* cannot destructure the element
   ELSE
   LET s1 == BindLoopVars([st EXCEPT !.fuel = @ - 1], e, ids, items[i])
